@@ -431,3 +431,114 @@ def replay(prop, path):
     if bad:
         print('VIOLATION property=%s replay=%s' % (prop, path)); return 1
     print('replay passes on the current tree'); return 0
+
+# ------------------------------------------------------------------ C05: every draw sequence on the implementation
+def res_exhaustive_stage(prop, tier, seed, bins, tag):
+    """drives the crate through EVERY draw sequence of Algorithm R for small (k, n) by choosing RNG words that
+    decode to each draw, and compares the inclusion counts with the theorem: count(p) * n = k * outcomes"""
+    t0 = time.time()
+    sg = Stage('exhaustive-draws:res')
+    configs = [(1, 2), (1, 3), (1, 4), (1, 5), (2, 3), (2, 4), (2, 5), (2, 6), (3, 4), (3, 5)]
+    if tier == 'thorough':
+        configs += [(2, 7), (3, 6), (3, 7), (4, 5), (4, 6), (4, 7)]
+    if tier == 'search':
+        return [res_statistical(seed, bins, tag)]
+    cases, index = gen.gen_res_exhaustive(configs)
+    src = {c[0].split()[1]: c for c in cases}
+    path = os.path.join(build.BUILD, '%s_resx.cases' % tag)
+    gen.write_cases(path, cases)
+    try:
+        tcs = corr.parse_transcript(corr.run_harness(bins['debug'], path))
+    except Exception as e:
+        sg.errors.append('harness run failed: %s' % e)
+        return [sg]
+    sg.cases = len(tcs)
+    outcomes = collections.defaultdict(list)
+    broken_cfg = set()
+    for tc in tcs:
+        k, n, seq = index[tc.id]
+        for p_, msg in tc.x:
+            sg.failures.append((p_, msg, src[tc.id]))
+        scripted = [l.split()[1:] for l in src[tc.id] if l.startswith('RW ')]
+        drawn = [list(map(str, w)) for op, res, w in tc.ops if op[0] == 'add' and w]
+        if scripted != drawn:
+            # the implementation no longer draws the way the enumeration assumes: the enumeration says nothing;
+            # this is a broken correspondence (the statistical search then looks for a failing (k, n, position))
+            broken_cfg.add((k, n))
+            if not sg.errors:
+                sg.errors.append('case %s: add consumed RNG words %s where the draw sequence scripted %s' % (tc.id, drawn[:3], scripted[:3]))
+            continue
+        last = tc.ops[-1]
+        if last[0][0] != 'obs' or last[1] in (['panic'], ['skipped']):
+            sg.failures.append(('C05', 'no final reservoir (panic?)', src[tc.id]))
+            continue
+        outcomes[(k, n)].append(([int(x) for x in last[1][:-2]], tc.id))
+        sg.nontrivial.add(tc.id)
+    for (k, n), outs in sorted(outcomes.items()):
+        if (k, n) in broken_cfg:
+            continue   # incomplete enumeration: says nothing
+        total = len(outs)
+        sg.dist['k=%d,n=%d outcomes' % (k, n)] = total
+        for pos in range(n):
+            c = sum(1 for r, _ in outs if pos in r)
+            if c * n != k * total:
+                witness = next((cid for r, cid in outs if (pos in r) == (c * n > k * total)), outs[0][1])
+                sg.failures.append(('C05', 'k=%d n=%d: position %d is in %d of %d outcomes over all draw sequences, expected exactly %d (k/n)' % (
+                    k, n, pos, c, total, k * total // n), src[witness]))
+                break
+    dis, aux, errs = corr.model_check('res', tcs, tag + 'x')
+    sg.traces = len(tcs)
+    sg.errors += errs
+    for c, kk, m in dis:
+        op = c.ops[kk] if 0 <= kk < len(c.ops) else None
+        sg.disagree.append((src.get(c.id), 'case %s op#%d %s: implementation=%s model=%s' % (c.id, kk, ' '.join(op[0]) if op else '?', ' '.join(op[1]) if op else '?', m)))
+    sg.samples.append({'structure': 'res', 'case': tcs[-1].id if tcs else None, 'ops': [' '.join(o[0]) + ' => ' + ' '.join(o[1]) for o in (tcs[-1].ops if tcs else [])]})
+    sg.rule = 'one case per draw sequence (j_k..j_{n-1}), j_i in [0,i], RNG words chosen to decode to each j_i; complete enumeration for the listed (k,n); every case is non-trivial (at least one replacement decision)'
+    sg.exhaustive = True
+    sg.wall = time.time() - t0
+    return [sg]
+
+
+def res_statistical(seed, bins, tag, runs=4000):
+    """failing-input search for C05 (only after a proof/correspondence break): per-position inclusion frequency over
+    many RNG seeds against k/n with a 6-sigma margin"""
+    t0 = time.time()
+    sg = Stage('statistical-uniformity:res')
+    rng = random.Random(seed)
+    cases, index = [], {}
+    for k, n in [(1, 2), (2, 5), (3, 13), (4, 17), (4, 24), (8, 60)]:
+        for r in range(runs):
+            cid = 's%d_%d_%d' % (k, n, r)
+            L = ['new 0 %d' % k] + ['add 0 %d' % p for p in range(n)] + ['obs 0']
+            cases.append(gen.case(cid, 'res', {'rngseed': rng.randrange(1 << 48)}, L))
+            index[cid] = (k, n)
+    path = os.path.join(build.BUILD, '%s_ress.cases' % tag)
+    gen.write_cases(path, cases)
+    try:
+        tcs = corr.parse_transcript(corr.run_harness(bins['debug'], path))
+    except Exception as e:
+        sg.errors.append('harness run failed: %s' % e)
+        return sg
+    sg.cases = len(tcs)
+    counts = collections.defaultdict(lambda: collections.Counter())
+    totals = collections.Counter()
+    for tc in tcs:
+        k, n = index[tc.id]
+        last = tc.ops[-1]
+        if last[1] in (['panic'], ['skipped']):
+            continue
+        totals[(k, n)] += 1
+        for x in last[1][:-2]:
+            counts[(k, n)][int(x)] += 1
+    for (k, n), tot in totals.items():
+        p = k / n
+        sigma = (p * (1 - p) / tot) ** 0.5
+        for pos in range(n):
+            f = counts[(k, n)][pos] / tot
+            if abs(f - p) > 6 * sigma + 1e-9:
+                L = ['new 0 %d' % k] + ['add 0 %d' % q for q in range(n)] + ['obs 0']
+                sg.failures.append(('C05', 'k=%d n=%d: position %d kept in %.4f of %d seeded runs, expected %.4f (6 sigma = %.4f)' % (k, n, pos, f, tot, p, 6 * sigma),
+                                    gen.case('stat_k%d_n%d' % (k, n), 'res', {'rngseed': 'any'}, L)))
+                break
+    sg.wall = time.time() - t0
+    return sg
